@@ -350,9 +350,15 @@ impl IoLoop {
                 // If our credentials are bad, the socket is dropped without a message,
                 // but we can detect that if we had gotten up to the Secure state before
                 // failing.
-                return match state {
-                    HandshakeState::Secure(_, _) => InvalidCredentialsSnafu.fail(),
-                    _ => Err(err),
+                // Only the connection being dropped means that; any other failure in this
+                // state (a Secure challenge, a timeout, an unexpected or malformed frame)
+                // keeps its own error.
+                return match (state, err) {
+                    (HandshakeState::Secure(_, _), Error::UnexpectedSocketClose)
+                    | (HandshakeState::Secure(_, _), Error::IoErrorReadingSocket { .. }) => {
+                        InvalidCredentialsSnafu.fail()
+                    }
+                    (_, err) => Err(err),
                 };
             }
         }
